@@ -177,10 +177,11 @@ def html_refs(units, files):
             refs.append({"unit": prog["name"].lower(), "cls": cls, "id": r["id"].lower(),
                          "ent": ent_of(m.group(1), kind, dirname)})
         else:
-            m = re.search(r"type, extends\((.*?)\)&nbsp;::&nbsp;\s*<a href='[^']*'>%s</a>" % re.escape(d["name"]),
-                          text, flags=re.S)
-            if not m:
+            heads = {mm.group(2).lower(): mm.group(1) for mm in re.finditer(
+                r"type, extends\((.*?)\)&nbsp;::&nbsp;\s*<a href='[^']*'>(\w+)</a>", text, flags=re.S)}
+            if d["name"].lower() not in heads:
                 return f"type {d['name']} not on the program page"
+            m = re.match(r"(.*)", heads[d["name"].lower()], flags=re.S)
             refs.append({"unit": prog["name"].lower(), "cls": "CType", "id": r["id"].lower(),
                          "ent": ent_of(m.group(1), "type", "type")})
     return refs
